@@ -161,7 +161,10 @@ func ruleC04R1(c *Ctx) {
 	c.floor("C04.R1", "write syscalls in the persistence tree of UnloadChunk", n, 1)
 	// close result checked on the success path
 	fn := c.P.Fn(aWriteFileAt)
-	closes := c.callsTo(fn, closeSyscalls)
+	calleeIs := func(p FnPred) func(ssa.CallInstruction) bool {
+		return func(s ssa.CallInstruction) bool { f := s.Common().StaticCallee(); return f != nil && p(f) }
+	}
+	closes := c.sitesWhereR(fn, calleeIs(closeSyscalls))
 	var checked []ssa.Instruction
 	for _, s := range closes {
 		v := s.Value()
@@ -180,7 +183,8 @@ func ruleC04R1(c *Ctx) {
 		// every possible success return is preceded by a checked close
 		for _, at := range c.successSites(fn) {
 			at := at
-			q := &PathQ{P: c.P, Barrier: func(in ssa.Instruction) bool { return instrSet(checked)[in] }}
+			q := c.pq(fn)
+			q.Barrier = func(in ssa.Instruction) bool { return instrSet(checked)[in] }
 			if hit, tr := q.Reach(entryOf(fn), func(in ssa.Instruction) bool { return in == at }); hit != nil {
 				okClose, why = false, "success can be returned without a checked close: "+c.P.trailString(tr)
 			}
@@ -197,7 +201,8 @@ func ruleC04R1(c *Ctx) {
 		ne := nilEdges(resultOf(opens[0].Value(), 1), true)
 		okLeak := len(ne) > 0
 		for b, si := range ne {
-			q := &PathQ{P: c.P, Barrier: func(in ssa.Instruction) bool { return callInstrSet(closes)[in] }}
+			q := c.pq(fn)
+			q.Barrier = func(in ssa.Instruction) bool { return callInstrSet(closes)[in] }
 			if hit, _ := q.Reach(succPoint(b, si), isReturn); hit != nil {
 				okLeak = false
 			}
@@ -312,7 +317,13 @@ func ruleC04R2(c *Ctx) {
 			}
 		}
 		writes := c.callsTo(fn, func(f *ssa.Function) bool { return writeSyscalls(f) || len(c.callsTo(f, writeSyscalls)) > 0 })
-		closes := c.callsTo(fn, closeSyscalls)
+		sw := newSumm(c.P, writeSyscalls)
+		for _, s := range callsIn(fn) { // a call that must reach the write through helpers
+			if _, isGo := s.(*ssa.Go); !isGo && sw.siteMust(s, nil, 0) {
+				writes = append(writes, s)
+			}
+		}
+		closes := c.sitesWhereR(fn, func(s ssa.CallInstruction) bool { f := s.Common().StaticCallee(); return f != nil && closeSyscalls(f) })
 		// the only way round the write is that there is nothing (left) to write: the emptiness test of the data being written
 		allowed := map[ssa.Value]bool{}
 		for _, p := range fn.Params {
